@@ -712,6 +712,13 @@ class Element(UnicodeMixin):
             ns = self.resolvePrefix(self.prefix)
             if ns[1] is not None:
                 self.expns = ns[1]
+        elif self.expns is None and self.defaultNamespace()[1] is None:
+            # An element in no namespace must not inherit the default
+            # namespace a (so far prefixed) ancestor is about to get.
+            for a in self.ancestors():
+                if a.prefix is not None:
+                    self.expns = ""
+                    break
         # Prefixes used by attribute names or QName-like attribute values can
         # not be replaced by a default namespace: keep them declared here.
         kept = {}
